@@ -4,6 +4,7 @@ pub mod aggs;
 pub mod backends;
 pub mod elem;
 pub mod maps;
+pub mod outbuf;
 pub mod probe;
 pub mod roll;
 
